@@ -131,6 +131,10 @@ func (ch *dagChannel) get(isStream bool) (any, bool, error) {
 	if ch.Skipped {
 		return nil, false, nil
 	}
+	if len(ch.ControlPredecessors) == 0 && len(ch.DataPredecessors) == 0 {
+		// nothing can ever trigger a node without predecessors: it is not "always ready"
+		return nil, false, nil
+	}
 
 	for _, state := range ch.ControlPredecessors {
 		if state == dependencyStateWaiting {
